@@ -240,6 +240,7 @@ type SchedConfig struct {
 	NodePoolValue         string            `json:"node_pool_value,omitempty"`
 	StaleGraceSec         int               `json:"stale_grace_s"`
 	QueueDepth            map[string]int    `json:"queue_depth,omitempty"`
+	CSIStorage            bool              `json:"csi_storage,omitempty"` // scheduleCSIStorage: PVCs, storage classes, CSI capacities are snapshotted
 	DropPlugins           []string          `json:"drop_plugins,omitempty"`
 	// Usage: historical usage per queue, normalised to cluster capacity (gpu, cpu, memory), served by a usage-db stub
 	Usage map[string][3]float64 `json:"usage,omitempty"`
@@ -314,6 +315,7 @@ func (c SchedConfig) build() (*conf.SchedulerConfiguration, *conf.SchedulerParam
 		GlobalDefaultStalenessGracePeriod: time.Duration(c.StaleGraceSec) * time.Second,
 		SchedulePeriod:                    time.Second,
 		QueueLabelKey:                     "kai.scheduler/queue",
+		ScheduleCSIStorage:                c.CSIStorage,
 	}
 	return sc, params
 }
@@ -372,6 +374,7 @@ func NewSchedActor(api *SimAPI, cfg SchedConfig, hooks SessionHooks, incarnation
 		KAISchedulerClient:          cl.Kai,
 		FullHierarchyFairness:       params.FullHierarchyFairness,
 		AllowConsolidatingReclaim:   params.AllowConsolidatingReclaim,
+		ScheduleCSIStorage:          params.ScheduleCSIStorage,
 		NumOfStatusRecordingWorkers: 1,
 		DiscoveryClient:             simDiscovery(cfg.DRA),
 		UsageDBClient:               usageClient(cfg),
